@@ -523,47 +523,55 @@ func (s *Store) SetFileCacheSize(size int) {
 }
 
 func (s *Store) getPrimaryKeyData(blk types.Block, indexKey []byte) ([]byte, []byte, error) {
-	// Get the key and value stored in primary to see if it is the same (index
-	// only stores prefixes).
-	storedKey, storedValue, err := s.index.Primary.Get(blk)
-	if err != nil {
-		// Log the error reading the primary, since no error is returned if the
-		// bad index is successfully deleted.
-		log.Errorw("Error reading primary, removing bad index", "err", err)
-		// The offset returned from the index is not usable, so delete the
-		// index entry regardless of which key in indexes. It is not safe to
-		// put this offset onto the free list, since it may be an invalid
-		// location in the primary.
-		if _, err = s.index.Remove(indexKey); err != nil {
+	for {
+		// Get the key and value stored in primary to see if it is the same
+		// (index only stores prefixes).
+		storedKey, storedValue, err := s.index.Primary.Get(blk)
+		if err == nil {
+			// Check that the stored key is the correct type.
+			storedKey, err = s.index.Primary.IndexKey(storedKey)
+		}
+		if err == nil {
+			// The index stores only prefixes, hence check if the given key
+			// fully matches the key that is stored in the primary storage
+			// before returning the actual value. If given key and stored key
+			// do not match, then some other key that has the same prefix was
+			// stored.
+			if !bytes.Equal(indexKey, storedKey) {
+				return nil, nil, nil
+			}
+			return storedKey, storedValue, nil
+		}
+
+		// The primary could not be read at the location from the index, or
+		// the key read from the primary is bad. Log the error, since no error
+		// is returned if the bad index is successfully deleted.
+		log.Errorw("Error reading primary or bad key stored in primary", "err", err)
+
+		// The record may have been superseded or relocated, and then reclaimed
+		// by GC, after the location was read from the index. If the index has
+		// a different location now, then use that.
+		curBlk, found, err := s.index.Get(indexKey)
+		if err != nil {
+			return nil, nil, err
+		}
+		if !found {
+			return nil, nil, nil
+		}
+		if curBlk != blk {
+			blk = curBlk
+			continue
+		}
+
+		// The location in the index is not usable, so delete the index entry
+		// regardless of which key it indexes, unless it has changed. It is not
+		// safe to put this offset onto the free list, since it may be an
+		// invalid location in the primary.
+		if _, err = s.index.RemoveAt(indexKey, blk); err != nil {
 			return nil, nil, fmt.Errorf("error removing unusable index: %w", err)
 		}
 		return nil, nil, nil
 	}
-
-	// Check that the stored key is the correct type.
-	storedKey, err = s.index.Primary.IndexKey(storedKey)
-	if err != nil {
-		// The key read from the primary is bad. This means that the data
-		// stored in the primary is bad or the index has an incorrect location.
-		// Either way, the index is unusable, so log the error and delete the
-		// index. It is not safe to put this offset onto the free list, since
-		// it may be an invalid location in the primary.
-		log.Errorw("Bad key stored in primary or bad index, removing index", "err", err)
-		if _, err = s.index.Remove(indexKey); err != nil {
-			return nil, nil, fmt.Errorf("error removing unusable index: %w", err)
-		}
-		return nil, nil, nil
-	}
-
-	// The index stores only prefixes, hence check if the given key fully
-	// matches the key that is stored in the primary storage before returning
-	// the actual value. If given key and stored key do not match, then some
-	// other key that has the same prefix was stored.
-	if !bytes.Equal(indexKey, storedKey) {
-		return nil, nil, nil
-	}
-
-	return storedKey, storedValue, nil
 }
 
 func (s *Store) flushTick() {
@@ -703,12 +711,12 @@ func (s *Store) Has(key []byte) (bool, error) {
 	// The index stores only prefixes, hence check if the given key fully matches the
 	// key that is stored in the primary storage before returning the actual value.
 	// TODO: avoid second lookup
-	primaryIndexKey, err := s.index.Primary.GetIndexKey(blk)
+	storedKey, _, err := s.getPrimaryKeyData(blk, indexKey)
 	if err != nil {
 		return false, err
 	}
 
-	return bytes.Equal(indexKey, primaryIndexKey), nil
+	return storedKey != nil, nil
 }
 
 func (s *Store) GetSize(key []byte) (types.Size, bool, error) {
@@ -727,24 +735,14 @@ func (s *Store) GetSize(key []byte) (types.Size, bool, error) {
 	// The index stores only prefixes, hence check if the given key fully matches the
 	// key that is stored in the primary storage before returning the actual value.
 	// TODO: avoid second lookup
-	storedKey, _, err := s.index.Primary.Get(blk)
+	storedKey, storedValue, err := s.getPrimaryKeyData(blk, indexKey)
 	if err != nil {
 		return 0, false, err
 	}
 	if storedKey == nil {
 		return 0, false, nil
 	}
-	primaryIndexKey, err := s.index.Primary.IndexKey(storedKey)
-	if err != nil {
-		return 0, false, err
-	}
-
-	if !bytes.Equal(indexKey, primaryIndexKey) {
-		return 0, false, nil
-	}
-	// The stored key may be a different encoding of the same index key (e.g.
-	// CIDv0 vs CIDv1), so subtract the length of the key actually stored.
-	return blk.Size - types.Size(len(storedKey)), true, nil
+	return types.Size(len(storedValue)), true, nil
 }
 
 // IndexStorageSize returns the storage used by the index files.
